@@ -411,8 +411,9 @@ class MappingSchema(AbstractMappingSchema, Schema):
 
         nested_set(self.mapping, tuple(reversed(parts)), normalized_column_mapping)
         new_trie([parts], self.mapping_trie)
-        self._find_cache.pop((normalized_table, True), None)
-        self._find_cache.pop((normalized_table, False), None)
+        # A new or updated table can change the answer for any partially qualified name that
+        # resolves to it (or that it makes ambiguous), not just for its own fully qualified key
+        self._find_cache.clear()
 
     def column_names(
         self,
